@@ -816,3 +816,80 @@ def use_from_long(n):
 
 
 FAMILIES["use_from_long"] = use_from_long
+
+
+# ------------------------------------------------------------------ deep expression trees
+def deep_expr(kind, n):
+    """valid schema with ONE expression whose tree is about n levels deep"""
+    head = "FUNCTION f(x : INTEGER) : INTEGER;\n  RETURN (x);\nEND_FUNCTION;\nENTITY a;\n  v : INTEGER;\n  l : LIST OF INTEGER;\n  b : BOOLEAN;\n  s : STRING;\n  o : OPTIONAL a;\n"
+    if kind == "left_sum":
+        e, ty = " + ".join(["v"] * (n + 1)), "INTEGER"
+    elif kind == "right_sum":
+        e, ty = "v + (" * n + "v" + ")" * n, "INTEGER"
+    elif kind == "concat":
+        e, ty = " + ".join(["''"] * (n + 1)), "STRING"
+    elif kind == "and_chain":
+        e, ty = " AND ".join(["b"] * (n + 1)), "BOOLEAN"
+    elif kind == "unary_not":
+        e, ty = "NOT " * n + "b", "BOOLEAN"
+    elif kind == "unary_minus":
+        e, ty = "-(" * n + "v" + ")" * n, "INTEGER"
+    elif kind == "funcall":
+        e, ty = "f(" * n + "v" + ")" * n, "INTEGER"
+    elif kind == "index":
+        e, ty = "l" + "[1]" * n, "INTEGER"
+    elif kind == "dot":
+        e, ty = "o" + ".o" * n + ".v", "INTEGER"
+    elif kind == "aggregate":
+        e, ty = "SIZEOF(" + "[" * n + "1" + "]" * n + ")", "INTEGER"
+    elif kind == "parens":
+        e, ty = "(" * n + "v" + ")" * n, "INTEGER"
+    elif kind == "interval":
+        e, ty = "{1 < v < " + "(" * n + "9" + ")" * n + "}", "LOGICAL"
+    else:
+        raise ValueError(kind)
+    return _sch(head + f"DERIVE\n  d : {ty} := {e};\nWHERE\n  wr1 : EXISTS({e});\nEND_ENTITY;\n")
+
+
+DEEP_EXPR_KINDS = ["left_sum", "right_sum", "concat", "and_chain", "unary_not", "unary_minus", "funcall", "index", "dot", "aggregate", "parens", "interval"]
+for _k in DEEP_EXPR_KINDS:
+    FAMILIES["deep_" + _k] = (lambda k: (lambda n: deep_expr(k, n)))(_k)
+
+
+def bound_expr(kind, n):
+    """aggregate bounds are translated by exp2python's EXPRto_python() (fixed 100000-byte buffer) and printed by exp2cxx"""
+    head = "FUNCTION fb(s : STRING; t : STRING) : INTEGER;\n  RETURN (1);\nEND_FUNCTION;\n"
+    if kind == "string_arg":
+        b = "fb('" + "q" * n + "', '')"
+    elif kind == "two_args":
+        b = "fb('" + "q" * (n // 2) + "', '" + "r" * (n // 2) + "')"
+    elif kind == "nested_calls":
+        b = "fb('', '')"
+        for _ in range(max(1, n // 12)):
+            b = "fb2(" + b + ")"
+        head += "FUNCTION fb2(i : INTEGER) : INTEGER;\n  RETURN (i);\nEND_FUNCTION;\n"
+    elif kind == "long_identifier_call":
+        head += "FUNCTION " + "g" * min(n, 190) + "(i : INTEGER) : INTEGER;\n  RETURN (i);\nEND_FUNCTION;\n"
+        b = "g" * min(n, 190) + "(" + "1 + " * (n // 4) + "1)"
+    else:
+        raise ValueError(kind)
+    return _sch(head + f"ENTITY a;\n  v : LIST [0 : {b}] OF INTEGER;\n  w : ARRAY [{b} : 9] OF INTEGER;\nEND_ENTITY;\nTYPE tb = SET [{b} : ?] OF REAL;\nEND_TYPE;\n")
+
+
+BOUND_KINDS = ["string_arg", "two_args", "nested_calls", "long_identifier_call"]
+for _k in BOUND_KINDS:
+    FAMILIES["bound_" + _k] = (lambda k: (lambda n: bound_expr(k, n)))(_k)
+
+
+def bound_kinds():
+    """(tag, data): every kind of expression as an aggregate bound (the generators translate bounds on their own paths)"""
+    out = []
+    for tag, b in (("integer", "3"), ("real", "1.5"), ("pi", "PI"), ("binary", "%101"), ("true", "TRUE"), ("unknown", "UNKNOWN"), ("string", "'abc'"),
+                   ("encoded", '"0000004A"'), ("sum", "1 + 2"), ("neg", "-1"), ("aggregate", "[1, 2]"), ("question", "?"), ("call", "fb('a', 'b')"),
+                   ("attr", "n"), ("self_attr", "SELF.n"), ("sizeof", "SIZEOF(l)"), ("query", "SIZEOF(QUERY(q <* l | q > 0))"), ("undefined", "nosuch"),
+                   ("index", "l[1]"), ("nested_call", "fb2(fb2(fb('', '')))"), ("interval", "{1 < n < 3}")):
+        out.append((f"bound:{tag}", _sch("FUNCTION fb(s : STRING; t : STRING) : INTEGER;\n  RETURN (1);\nEND_FUNCTION;\n"
+                                           "FUNCTION fb2(i : INTEGER) : INTEGER;\n  RETURN (i);\nEND_FUNCTION;\n"
+                                           f"ENTITY a;\n  n : INTEGER;\n  l : LIST OF INTEGER;\n  v : LIST [0 : {b}] OF INTEGER;\n  w : ARRAY [{b} : 9] OF INTEGER;\nEND_ENTITY;\n"
+                                           f"TYPE tb = SET [{b} : ?] OF REAL;\nEND_TYPE;\n")))
+    return out
